@@ -971,6 +971,9 @@ fn run_inner(c12_files: bool) -> Outcome {
 
     let mut cancelled = 0u32;
     let mut mid_rival_done = false;
+    // (only in worlds without a pre-existing entry: the oracles about such an entry assume it stays)
+    let prune_enabled = !c12_files && world.pre == Pre::None && chance("e3.prune", 1, 8);
+    let mut prune_done = false;
     let model2 = model.clone();
     let nops = world.ops.len();
     let mut retry_queue: Vec<usize> = Vec::new();
@@ -1011,6 +1014,30 @@ fn run_inner(c12_files: bool) -> Outcome {
                             probe("e3.rival_mid_download");
                         }
                         mid_rival_done = true;
+                    }
+                    // another user of the cache prunes a module's directory while a download is
+                    // in flight (cache clean-up): the commit then finds its directory gone
+                    if prune_enabled && !prune_done && !m.live_temps.is_empty() && chance("e3.prune.mid", 1, 6) {
+                        let mi = ch("e3.prune.module", m.mods.len() as u32) as usize;
+                        let rel = m.mods[mi].rel.clone();
+                        if let Some(top) = rel.split('/').next() {
+                            let dir = m.cache.join(top);
+                            if dir.is_dir() && std::fs::remove_dir_all(&dir).is_ok() {
+                                probe("e3.cache_dir_pruned");
+                                // what lived under it was taken away by that other user, not by us
+                                let gone: Vec<String> = m.established.iter().filter(|r| r.starts_with(&format!("{top}/"))).cloned().collect();
+                                for r in gone {
+                                    m.persist_failed.insert(r);
+                                }
+                                // ... and whatever is committed there from now on may be pruned too
+                                for ms in m.mods.clone() {
+                                    if ms.rel.starts_with(&format!("{top}/")) {
+                                        m.persist_failed.insert(ms.rel.clone());
+                                    }
+                                }
+                            }
+                        }
+                        prune_done = true;
                     }
                     if let Some(v) = m.violation.clone() {
                         break Err(v);
